@@ -206,11 +206,14 @@ def random_form(args):
         body, bd, ctype = encode_url(form), b"", "application/x-www-form-urlencoded"
     else:
         while True:
-            bd = bytes(rng.choice(b"abcdefghijklmnopqrstuvwxyzABCDEF0123456789") for _ in range(rng.choice([1, 6, 20, 40])))
+            bd = bytes(rng.choice(b"abcdefghijklmnopqrstuvwxyzABCDEF0123456789" + (b"'()+_,-./:=?" * 2 if rng.random() < 0.4 else b""))
+                       for _ in range(rng.choice([1, 6, 20, 40])))
             body = encode_multipart(bd, form)
-            if body.count(b"--" + bd) == len(form) + 1:
+            d = b"--" + bd          # occurrences counted with overlaps, like CountSub of the specification
+            if sum(1 for k in range(len(body) - len(d) + 1) if body[k:k + len(d)] == d) == len(form) + 1:
                 break
-        ctype = "multipart/form-data; boundary=" + bd.decode()
+        quoted = any(c in b'()<>@,;:\\"/[]?=' for c in bd) or rng.random() < 0.2      # tspecials need a quoted parameter
+        ctype = "multipart/form-data; boundary=" + ('"%s"' % bd.decode() if quoted else bd.decode())
     obs = real_parse(ctype, body)
     o = {"body": list(body), "result": obs[0], "fields": [], "files": []}
     if obs[0] == "ok":
